@@ -4,3 +4,5 @@ import PikaVerif.Model.Sem
 import PikaVerif.Lemmas.Sem
 import PikaVerif.Lemmas.Sem2
 import PikaVerif.Props.C08
+import PikaVerif.Model.Barrier
+import PikaVerif.Props.C09Barrier
